@@ -337,6 +337,20 @@ Fixpoint p_steps (fuel : nat) (steps : list (outcome bytes)) : prog (list bytes)
   | Panic :: _ => Crash
   end.
 
+(* Attribute.ReadValue, variable-length string branch (attribute.go:166-175, 320-356), for the idx-th attribute of the
+   list; n = Dataspace.TotalElements() of that attribute.  Every element is length (4) + heap address (offset size) +
+   object index (4); readVariableLengthString (attribute.go:373) resolves the reference behind the length. *)
+Definition vlen_walk (idx : nat) (n : N) (attrs : list attr) : list (outcome bytes) :=
+  match nth_error attrs idx with
+  | None => [Err]
+  | Some (_, d) =>
+      let rs := spp_offsize sb + 8 in
+      if (n =? 0) || (blen d =? 0) then [] else                             (* attribute.go:172: empty value, no I/O *)
+      if 18446744073709551616 <=? n * rs then [Err] else                    (* attribute.go:331 utils.SafeMultiply *)
+      if blen d <? n * rs then [Err] else                                   (* attribute.go:336 *)
+      map (fun i => match slice d (i * rs) (i * rs + rs) with Ok e => Ok (skipn 4 e) | _ => Err end) (nseq n)
+  end.
+
 (* Dataset.ReadCompound (group.go:133): the raw data (api_read_raw), then the walk over it *)
 Definition api_read_compound (fuel : nat) (addr : N) (walk : rawdata -> list (outcome bytes)) : prog (rawdata * list bytes) :=
   bind (api_read_raw sb fuel addr) (fun raw => bind (p_steps fuel (walk raw)) (fun ss => Ret (raw, ss))).
